@@ -46,19 +46,6 @@ _MANIFEST_PENDING = {
 STACK = 8 << 20          # main-thread stack of the `veryl` CLI (ulimit -s default); LS threads use 16 MiB
 
 
-def family_specs():
-    """chains of the nesting / flat families, by production text of the generated parser"""
-    pre_mod = [
-        "Veryl: Start VerylList /* Vec */;",
-        "VerylList: DescriptionGroup VerylList;",
-        "DescriptionGroup: DescriptionGroupList /* Vec */ DescriptionGroupGroup;",
-        "DescriptionGroupGroup: DescriptionItem;",
-        "DescriptionItem: DescriptionItemOpt /* Option */ PublicDescriptionItem;",
-        "PublicDescriptionItem: ModuleDeclaration;",
-    ]
-    return T.FAMILY_SPECS if T.FAMILY_SPECS else {"_pre_mod": pre_mod}
-
-
 def run_cases(binary, mode, wires, timeout_ms=20000, stack=STACK, nshards=None):
     args = [mode, "--timeout-ms", str(timeout_ms), "--mem-kb", str(6 * 1024 * 1024), "--stack", str(stack)]
     return C.run_lines(binary, wires, args=args, timeout=3000, nshards=nshards)
@@ -85,6 +72,8 @@ def parse_result(line):
                     r["spans"] = [tuple(int(x) for x in s.split(":")) for s in v.split(",")]
             elif k in ("len", "depth", "maxdepth"):
                 r[k] = int(v)
+            elif k == "nl":
+                r["ends_nl"] = v == "1"
             elif k == "chain":
                 r[k] = [] if v == "-" else [int(x) for x in v.split(".")]
             else:
@@ -100,6 +89,10 @@ def judge(wire, r, text_len=None):
         return bad
     if st == "PANIC":
         loc = r["raw"].split()[1] if len(r["raw"].split()) > 1 else "?"
+        for root in (C.REPO, "/repo"):
+            if loc.startswith(root + "/"):
+                loc = loc[len(root) + 1:]
+                break
         bad.append(("panic:" + loc, "Parser::parse (or dropping its result) panicked: " + r["raw"][:200]))
     elif st == "CRASH":
         bad.append(("crash", "the parsing process died (stack overflow / abort): " + r["raw"][:120]))
@@ -109,7 +102,13 @@ def judge(wire, r, text_len=None):
         n = r["len"]
         for (o, l) in r["spans"]:
             if o + l > n:
-                bad.append(("span-outside-input", "diagnostic span %d+%d ends past the %d-byte input" % (o, l, n)))
+                if (o, l) == (n + 1, 0) and not r.get("ends_nl", True):
+                    # the class characterised by C10_span_outside_only_newline / C10_span_inside_input_refuted
+                    bad.append(("span-eof-behind-appended-newline",
+                                "the end-of-input diagnostic of a text without final newline has span (%d,0): one past the "
+                                "%d-byte input (behind the newline Parser::parse appended)" % (o, n)))
+                else:
+                    bad.append(("span-outside-input", "diagnostic span %d+%d ends past the %d-byte input" % (o, l, n)))
                 break
         if r["render"] != "ok":
             bad.append(("render-" + str(r["render"]), "the returned diagnostic cannot be rendered (%s)" % r["render"]))
@@ -221,20 +220,23 @@ def run(tier, seed, replay):
         plan = []          # (family, n)
         for name in fam_names:
             f = tinfo["families"][name]
+            off = T.FAMILY_SPECS[name]["offset"]
+            lo = max(1, off)
             if f["rep_cost"] > 0:
-                nstar = max(0, (cap - f["pre_cost"] - f["tail_cost"]) // f["rep_cost"])
-                ns = sorted(set([0, 1, 2, 3, rng.randint(4, max(5, nstar - 3))] +
-                                [max(0, nstar + d) for d in (-2, -1, 0, 1, 2)] + [2 * nstar, 10 * nstar]))
+                nstar = off + max(0, (cap - f["pre_cost"] - f["tail_cost"]) // f["rep_cost"])
+                ns = sorted(set([lo, lo + 1, lo + 2, rng.randint(lo + 3, max(lo + 4, nstar - 3))] +
+                                [max(lo, nstar + d) for d in (-2, -1, 0, 1, 2)] + [2 * nstar, 10 * nstar]))
             else:
-                ns = [0, 1, 2, rng.randint(3, 3000), 3000, 50000]
+                ns = [1, 2, 3, rng.randint(4, 3000), 3000, 50000]
             for n in ns:
                 plan.append((name, n))
         # model
         exprs = ["(cap, list_nest_bound)"]
         for name in fam_names:
             ns = [n for (f, n) in plan if f == name]
+            off = T.FAMILY_SPECS[name]["offset"]
             exprs.append("map (fun n => (family_depth fam_%s n, family_accepts cap fam_%s n)) [%s]" % (
-                name, name, ";".join(str(n) for n in ns)))
+                name, name, ";".join(str(n - off) for n in ns)))
         model = None
         try:
             ok_m, logm = C.coq_make(["Robust/GenDepth.vo", "Robust/ParseModel.vo"])
@@ -287,37 +289,49 @@ def run(tier, seed, replay):
                         "parser": out_depth[len(plan) // 2][:120]})
 
     # 5. search stream (the property's own oracle on the real parser) -------------------------
-    cases = []
+    base = []
     cdir = os.path.join(C.VERIF, "corpus", PID)
     for fn in sorted(os.listdir(cdir)) if os.path.isdir(cdir) else []:
         if fn.endswith(".veryl") or fn.endswith(".txt"):
-            cases.append(("corpus:" + fn, "F " + os.path.join(cdir, fn)))
+            base.append(("corpus:" + fn, "F " + os.path.join(cdir, fn)))
     for f in G.repo_testcases():
-        cases.append(("testcase", "F " + f))
-    cases += G.structured_cases(rng, tier)
+        base.append(("testcase", "F " + f))
     if tier == "quick":
-        cases += G.random_cases(rng, 250, 350, 900, 300)
+        rnd = G.random_cases(rng, 250, 350, 900, 300)
     else:
-        cases += G.random_cases(rng, 4000, 6000, 30000, 6000)
-    wires = [w for (_, w) in cases]
-    outs = {}
-    for prof in ("release", "debug"):
-        outs[prof] = run_cases(bins[prof], "parse", wires, timeout_ms=30000 if prof == "release" else 90000)
-        evaluations += len(wires)
+        rnd = G.random_cases(rng, 4000, 6000, 30000, 6000)
+    # the unoptimised debug build gets 64 KB token runs / 6 500-deep brackets instead of 1 MB / 100 000
+    streams = {"release": base + G.structured_cases(random.Random(seed), tier, 1 << 20) + rnd,
+               "debug": base + G.structured_cases(random.Random(seed), tier, 1 << 16) + rnd}
+    tmo = {"release": 30000, "debug": 60000}
     distinct = set()
     found = {}
-    for i, (tag, wire) in enumerate(cases):
-        res.hist("input_class_histogram", tag.split(":")[0])
-        for prof in ("release", "debug"):
-            r = parse_result(outs[prof][i])
+    slow = 0
+    for prof in ("release", "debug"):
+        cases = streams[prof]
+        wires = [w for (_, w) in cases]
+        outs = run_cases(bins[prof], "parse", wires, timeout_ms=tmo[prof])
+        evaluations += len(wires)
+        for i, (tag, wire) in enumerate(cases):
+            r = parse_result(outs[i])
+            if r["status"] == "TIMEOUT":
+                # a timeout under machine load is not a hang: confirm alone with 8x the time
+                again = run_cases(bins[prof], "parse", [wire], timeout_ms=8 * tmo[prof], nshards=1)
+                r2 = parse_result(again[0]) if again else r
+                if r2["status"] != "TIMEOUT":
+                    slow += 1
+                    r = r2
+            if prof == "release":
+                res.hist("input_class_histogram", tag.split(":")[0])
+                if r["status"] in ("accept", "reject"):
+                    distinct.add((tag.split(":")[0], r["status"], r["kind"], tuple(r["spans"][:1]), r["len"]))
             res.hist("outcome_histogram_" + prof, r["status"] + ("/" + r["kind"] if r["kind"] else ""))
-            if prof == "release" and r["status"] in ("accept", "reject"):
-                distinct.add((tag.split(":")[0], r["status"], r["kind"], tuple(r["spans"][:1]), r["len"]))
             for k, w in judge(wire, r):
                 if k not in found:
                     found[k] = (tag, wire, prof, w, r)
-        if i in (0, len(cases) // 3, 2 * len(cases) // 3):
-            res.sample({"class": tag, "wire": wire[:100], "release": outs["release"][i][:120]})
+            if prof == "release" and i in (0, len(cases) // 3, 2 * len(cases) // 3):
+                res.sample({"class": tag, "wire": wire[:100], "release": r["raw"][:120]})
+    res.coverage["slow_cases_confirmed_not_hanging"] = slow
     for k, (tag, wire, prof, w, r) in sorted(found.items()):
         rp = {"class": tag, "profile": prof, "impl": r["raw"][:400]}
         if k in res.known:
